@@ -305,6 +305,7 @@ type reference struct {
 	writeBlock []int  // height of the block a write belongs to
 	writePos   []int  // stream position of the block a write belongs to
 	finAtPos   []bool // stream position -> its import wrote the finalized key on the reference node
+	base       int    // number of durable writes of the first start (before the stream)
 	n          int
 }
 
@@ -370,6 +371,7 @@ func main() {
 				ref.stateOf[blk.Header().ID()] = d
 			}
 		}
+		ref.base = r.base
 		ref.writes = r.kv.Log()[r.base:]
 		ref.n = len(ref.writes)
 		if err := nodecheck.LogDBMatchesChain(r.node.Repo, ldb); err != nil {
@@ -422,6 +424,9 @@ func main() {
 		sort.Ints(cuts)
 	}
 	var results []cutResult
+	for g := 0; g < ref.base; g++ {
+		results = append(results, runGenesisCut(w, ref, g))
+	}
 	for _, k := range cuts {
 		second := -1
 		if *double && w.rng.Intn(3) == 0 {
@@ -594,6 +599,65 @@ func runCut(w *world, ref *reference, k, second int, siblingFirst bool) (cutResu
 	res.Events = len(r.evs)
 	res.Phases = r.crashPhases
 	return res, r.evs
+}
+
+// runGenesisCut: the process dies before durable write g of its VERY FIRST start (genesis state, genesis block,
+// repository initialisation). The next start must succeed and the node must then import the whole stream like the
+// uninterrupted node.
+func runGenesisCut(w *world, ref *reference, g int) cutResult {
+	res := cutResult{K: -1 - g, Phase: "genesis", Inflight: -1, Variant: "first-start"}
+	ldb, err := logdb.NewMem()
+	must(err)
+	r := &runner{w: w, kv: kvrec.New(), ldb: ldb}
+	r.kv.CrashAt(g)
+	crashed := func() (c bool) {
+		defer func() {
+			if x := recover(); x != nil {
+				if _, ok := x.(kvrec.CrashSentinel); ok {
+					c = true
+					return
+				}
+				panic(x)
+			}
+		}()
+		if err := r.open(true); err != nil {
+			res.RestartErr = "first start: " + err.Error()
+		}
+		return false
+	}()
+	r.kv.CrashAt(-1)
+	if crashed {
+		if err := r.open(false); err != nil {
+			res.RestartErr = err.Error()
+			return res
+		}
+	}
+	if res.RestartErr != "" {
+		return res
+	}
+	if _, err := nodecheck.BestComplete(r.node.Repo, r.node.DB); err != nil {
+		res.Incomplete = err.Error()
+	}
+	for pos, blk := range w.stream {
+		r.pos = pos
+		r.deliver(blk)
+	}
+	for _, e := range r.evs {
+		if e["e"] == "Fail" {
+			res.ImportErrs = append(res.ImportErrs, fmt.Sprint(e["err"]))
+		}
+	}
+	if best := r.node.Repo.BestBlockSummary().Header.ID(); best != ref.best {
+		res.Diverged = fmt.Sprintf("[best %d vs %d]", block.Number(best), block.Number(ref.best))
+	} else if fin := r.node.BFT.Finalized(); fin != ref.fin {
+		res.Diverged = fmt.Sprintf("[finalized %d vs %d]", block.Number(fin), block.Number(ref.fin))
+	}
+	if err := nodecheck.LogDBMatchesChain(r.node.Repo, r.ldb); err != nil {
+		res.LogsDiff = "at the end: " + err.Error()
+	}
+	r.node.Close()
+	res.Events = len(r.evs)
+	return res
 }
 
 // hasSibling: does the block in flight at cut k have a sibling (same parent) in the stream?
